@@ -7,7 +7,7 @@ package main
 //
 //   http case <kind> <bodyHex|-> <refHex|@>
 //
-// kind: create | update | release | recharge.  One case = a fresh world with an account for the probe
+// kind: create | update | release | recharge | recharge0 | notifyslow | notifyreenter (see notifyCase).  One case = a fresh world with an account for the probe
 // subscriber; for update/release a valid session is created first and the raw body is posted to
 // <refHex> ("@": the session's real reference); for recharge <refHex> is the raw path parameter and a valid
 // session exists.  Then the follow-up: a valid online update on the valid session (create: a valid create),
@@ -143,6 +143,80 @@ func post(path string, body []byte, deadline time.Duration) (int, bool) {
 
 var httpHangs int
 
+// notifyCase: a recharge notification whose consumer is not passive.
+//
+//   notifyslow     the consumer answers the notification after 5 s; 300 ms after the recharge request was sent
+//                  a well-formed update for the same subscriber is sent: it must be answered within 4 s
+//   notifyreenter  the consumer sends an update for the same subscriber before it answers the notification;
+//                  that update must be answered within 4 s and the recharge request within 8 s
+//
+// observation: st=<status of the recharge request | hang> fu=<status of the update | hang> fu2=-
+func notifyCase(kind string) string {
+	runChf("chf reset", []string{"reset"})
+	store.set(probeSupi, 1, "100000", "2")
+	chfSupis[probeSupi] = true
+	fr := fullRequest(probeSupi, 0)
+	if kind == "notifyslow" {
+		fr["notifyUri"] = sinkURL + "/n/slow/x"
+	} else {
+		fr["notifyUri"] = sinkURL + "/n/reenter/x"
+	}
+	fb, _ := json.Marshal(fr)
+	w0 := doHTTP("POST", ccPrefix+"/chargingdata", fb)
+	sid := ""
+	if l := w0.Header().Get("Location"); l != "" {
+		if i := strings.LastIndex(l, "/chargingdata/"); i >= 0 {
+			sid = l[i+len("/chargingdata/"):]
+		}
+	}
+	if w0.Code != 201 || sid == "" {
+		return "setup-failed"
+	}
+	ub, _ := json.Marshal(fullRequest(probeSupi, 1))
+	update := func() string {
+		c, ok := post(ccPrefix+"/chargingdata/"+escapePath(sid)+"/update", ub, 4*time.Second)
+		if !ok {
+			return "hang"
+		}
+		return fmt.Sprint(c)
+	}
+	fuCh := make(chan string, 1)
+	sinkMu.Lock()
+	sinkSlow, sinkReenter = 0, nil
+	if kind == "notifyslow" {
+		sinkSlow = 5 * time.Second
+	} else {
+		sinkReenter = func() { fuCh <- update() }
+	}
+	sinkMu.Unlock()
+	defer func() {
+		sinkMu.Lock()
+		sinkSlow, sinkReenter = 0, nil
+		sinkMu.Unlock()
+	}()
+	ch := make(chan int, 1)
+	go func() { ch <- doHTTP("PUT", ccPrefix+"/recharging/"+escapePath(probeSupi+"_1"), nil).Code }()
+	fu := "-"
+	if kind == "notifyslow" {
+		time.Sleep(300 * time.Millisecond)
+		fu = update()
+	}
+	st := "hang"
+	select {
+	case c := <-ch:
+		st = fmt.Sprint(c)
+	case <-time.After(8 * time.Second):
+	}
+	if kind == "notifyreenter" {
+		select {
+		case fu = <-fuCh:
+		case <-time.After(5 * time.Second):
+			fu = "none" // the consumer was never notified
+		}
+	}
+	return fmt.Sprintf("st=%s fu=%s fu2=-", st, fu)
+}
+
 func runHTTP(line string, t []string) string {
 	if len(t) != 4 || t[0] != "case" {
 		return "bad-op"
@@ -239,6 +313,8 @@ func runHTTP1(t []string) string {
 		case <-time.After(40 * time.Second):
 			done = false
 		}
+	case "notifyslow", "notifyreenter":
+		return notifyCase(kind)
 	default:
 		return "bad-op"
 	}
@@ -388,6 +464,9 @@ func genHTTP(o genOpts, w *bufio.Writer) {
 	for _, p := range []string{probeSupi + "_1", probeSupi + "_2", "imsi-unknown_1"} {
 		emit("recharge0", nil, hexOf([]byte(p)))
 	}
+	// 6b. recharge notifications to a consumer that answers late / sends an update before it answers
+	emit("notifyslow", nil, "-")
+	emit("notifyreenter", nil, "-")
 	// 7. random multi-member removals
 	for i := 0; i < o.n; i++ {
 		c := deepCopy(base)
